@@ -80,7 +80,7 @@ func synthRoutes(r *rng, idx int, withVarForm bool) (*modSpec, []routeIntent) {
 	var b strings.Builder
 	fmt.Fprintf(&b, "package main\n\nimport (\n\t\"fmt\"\n\n\t\"%s/echo\"\n\t\"%s/inner\"\n)\n\nvar _ = fmt.Sprint\n\n", mod, mod)
 	b.WriteString("const pkgRoute = \"/pkg_const/\"\n\ntype IdItem int64\n\ntype Params struct {\n\tA int\n\tB string\n}\n\ntype Result struct {\n\tOK bool\n\tItems []IdItem\n}\n\ntype controller struct{}\n\ntype admin struct{}\n\n")
-	b.WriteString("func QueryParamInt[T ~int64](echo.Context, string) (T, error) { return 0, nil }\nfunc (controller) QueryParamInt64(echo.Context, string) int64 { return 0 }\nfunc (controller) QueryParamBool(echo.Context, string) bool { return false }\nfunc FormValueJSON(echo.Context, string, any) error { return nil }\n\n")
+	b.WriteString("type Flag bool\n\ntype Token string\n\nfunc QueryParamBool[T ~bool](echo.Context, string) T { var z T; return z }\nfunc QueryParam[T ~string](echo.Context, string) T { return \"\" }\nfunc QueryParamInt[T ~int64](echo.Context, string) (T, error) { return 0, nil }\nfunc (controller) QueryParamInt64(echo.Context, string) int64 { return 0 }\nfunc (controller) QueryParamBool(echo.Context, string) bool { return false }\nfunc FormValueJSON(echo.Context, string, any) error { return nil }\n\n")
 	var intents []routeIntent
 	var reg strings.Builder
 	reg.WriteString("func routes(e *echo.Echo, ct *controller, cv controller, ext inner.Controller, ad admin) {\n\tconst localRoute = \"local_const\"\n")
@@ -90,7 +90,13 @@ func synthRoutes(r *rng, idx int, withVarForm bool) (*modSpec, []routeIntent) {
 		in := routeIntent{Verb: pick(r, verbs)}
 		// path expression
 		var pathExpr string
-		switch r.intn(6) {
+		switch r.intn(8) {
+		case 6: // a raw string literal
+			in.URL = fmt.Sprintf("/raw/%d/:name", i)
+			pathExpr = "`" + in.URL + "`"
+		case 7: // escape sequences in an interpreted literal
+			in.URL = fmt.Sprintf("/api/caf\u00e9/m/%d/q", i)
+			pathExpr = fmt.Sprintf("\"/api/caf\\u00e9/\\x6d/%d/\\x71\"", i)
 		case 0:
 			in.URL = fmt.Sprintf("/lit/%d", i)
 			pathExpr = fmt.Sprintf("%q", in.URL)
@@ -211,7 +217,13 @@ func synthBody(r *rng, payloads []payloadTy, varForm bool) (string, []stmtIntent
 	for i := 0; i < nq; i++ {
 		x := v()
 		name := fmt.Sprintf("q-%d", i)
-		switch r.intn(5) {
+		switch r.intn(7) {
+		case 5: // a named boolean through a generic helper
+			fmt.Fprintf(&b, "\t%s := QueryParamBool[Flag](c, %q)\n\t_ = %s\n", x, name, x)
+			st = append(st, stmtIntent{Form: "assign", Call: "QueryParamBool", Name: name, Type: "example.com/org/api.Flag"})
+		case 6: // a named string through a generic helper
+			fmt.Fprintf(&b, "\t%s := QueryParam[Token](c, %q)\n\t_ = %s\n", x, name, x)
+			st = append(st, stmtIntent{Form: "assign", Call: "QueryParam", Name: name, Type: "example.com/org/api.Token"})
 		case 0:
 			if varForm {
 				fmt.Fprintf(&b, "\tvar %s = c.QueryParam(%q)\n\t_ = %s\n", x, name, x)
